@@ -355,6 +355,7 @@ EDIT_WEIGHTS = {
     "page_add": 3,
     "page_delete": 2,
     "page_mv": 2,
+    "page_restore": 2,
 }
 
 
